@@ -28,17 +28,18 @@ def _run_chunk(argv, text, timeout):
         return 'timeout', out, ''
 
 
-def run_lines(argv, lines, timeout=600, shards=NPROC, min_shard=200):
-    """Run `argv` over the case lines (split into shards run in parallel); returns the output lines in
-    order.  Raises on a short answer — use run_lines_robust for inputs that may kill the process."""
+def run_lines(argv, lines, timeout=600, shards=NPROC, min_shard=200, max_shard=1500):
+    """Run `argv` over the case lines (split into chunks run by a pool of `shards` workers); returns the
+    output lines in order.  Raises on a short answer — use run_lines_robust for inputs that may kill the
+    process.  Chunks are bounded so that the per-chunk time limit scales with the work in it."""
     n = len(lines)
     if n == 0:
         return []
     k = max(1, min(shards, n // min_shard or 1))
-    size = (n + k - 1) // k
+    size = min(max_shard, (n + k - 1) // k)
     chunks = [lines[i:i + size] for i in range(0, n, size)]
     with cf.ThreadPoolExecutor(max_workers=k) as ex:
-        res = list(ex.map(lambda c: _run_chunk(argv, ''.join(c), timeout), chunks))
+        res = list(ex.map(lambda c: _run_chunk(argv, ''.join(c), timeout + 2.0 * len(c)), chunks))
     out = []
     for c, (rc, so, se) in zip(chunks, res):
         ls = so.split('\n')
